@@ -1,5 +1,7 @@
 import MdsVerif.Proofs.MdiffApply
+import MdsVerif.Proofs.MdiffNormalRT
 import MdsVerif.Props.C13
+import MdsVerif.Props.C14
 /-!
 # C14 (apply) — every rendering of a diff, applied to `Left` by the published rules, gives `Right`
 
@@ -22,11 +24,16 @@ Chunk-list level (`apply_*_chunks`): for ANY chunk list `cs` with
 Proved, full strength: `apply_normal_chunks`, `apply_context_chunks` (with `hch`: every chunk has a
 non-Emit edit), `apply_normal_new`, `apply_context_new`, `apply_normal_pipeline`,
 `apply_context_pipeline` (all `L`, `R`, `n`, any `FileInfo`; hypotheses `hvalid`, `hcanon` = C11's
-theorems about `EditScript`).  Proved under "no empty range": `apply_unified_chunks_partial`,
+theorems about `EditScript`).  Proved under "no empty LEFT range": `apply_unified_chunks_partial`,
 `apply_unified_new_partial`, `apply_unified_pipeline_partial`.
 The recorded defect F6 (`uspan` spells an empty range `start,0`, POSIX/GNU `start-1,0`) makes the
-unified statement false when a chunk has an empty left or right range (`Props.C14.C14_F6_witness`);
-hence the hypothesis `hne` of `apply_unified_chunks_partial`.
+unified statement false when a chunk has an empty LEFT range, i.e. is a pure insertion
+(`Props.C14.C14_F6_witness`); hence the hypothesis `hne` of `apply_unified_chunks_partial`.  An empty
+RIGHT range (a pure deletion, `@@ -2 +2,0 @@`) is harmless: nothing is written there, GNU `patch`
+places a hunk by its old-side position, and the reference applier does not check the new-side start
+of a hunk that writes nothing.  `apply_unified_chunks_asWritten` (full): read with F6's own
+convention (`Spec.DiffApply.applyUnifiedWith true`) the text of EVERY correct, aligned chunk list
+applies — so the empty left range is exactly what stands between the code and the property.
 -/
 namespace MdsVerif.Props.C14a
 open MdsVerif.Model.Edit MdsVerif.Model.Mdiff MdsVerif.Model.MdiffFmt MdsVerif.Proofs.MdiffFmt
@@ -104,22 +111,23 @@ example :
       str "***************", str "*** 4,3 ****", str "--- 3 ----", str "+ Q"] ∧
     DiffApply.applyContext (context cs2 (some exFi)) exL2 = some exR2 := by decide
 
-/-! ## unified (under "no empty range": F6) -/
+/-! ## unified (under "no empty LEFT range": F6) -/
 
 /-- **apply_unified_chunks_partial.**  For every chunk list that is `AllOK` and `Aligned` and in
-which no chunk has an empty left or right range (`hne`), the reference applier of the unified format
+which no chunk has an empty LEFT range (`hne`), the reference applier of the unified format
 (`@@ -l,s +r,t @@`, an omitted count is 1, exactly `s` old-side and `t` new-side lines, every old and
-context line checked against `L`, the new-file position checked against the output; an optional
-`---`/`+++` header is skipped) run on the text written by `Unified` — with any `FileInfo` or none —
+context line checked against `L`, the new-file position of every hunk that writes something checked
+against the output; an optional `---`/`+++` header is skipped) run on the text written by `Unified` — with any `FileInfo` or none —
 over `L` returns `R`.  (`EditOK` is not needed for this format.)
 
 `_partial`: the hypothesis `hne` is what is missing from the property text.  Without it the
 statement is FALSE for the code as it is — recorded defect F6: `uspan` spells an empty range
 `start,0`, POSIX/GNU spell it `start-1,0`; witness `Props.C14.C14_F6_witness`
-(`L = [a b c d]`, `R = [a b X c d]`, no context).  Nothing else is missing. -/
+(`L = [a b c d]`, `R = [a b X c d]`, no context).  Nothing else is missing
+(`apply_unified_chunks_asWritten`). -/
 theorem apply_unified_chunks_partial (cs : List (Chunk Line)) (L R : List Line) (fi : Option FileInfo)
     (hok : AllOK cs L R) (hal : Aligned L R 1 1 cs)
-    (hne : ∀ c ∈ cs, c.lstart < c.lend ∧ c.rstart < c.rend) :
+    (hne : ∀ c ∈ cs, c.lstart < c.lend) :
     DiffApply.applyUnified (unified cs fi) L = some R :=
   applyUnified_chunks cs L R fi hok hal hne
 
@@ -128,11 +136,42 @@ set_option maxRecDepth 8000 in
 one, written without count, and one of length two), without and with a file header -/
 example :
     let cs := (Model.Mdiff.new exL exR).chunks
-    AllOK cs exL exR ∧ Aligned exL exR 1 1 cs ∧ (∀ c ∈ cs, c.lstart < c.lend ∧ c.rstart < c.rend) ∧
+    AllOK cs exL exR ∧ Aligned exL exR 1 1 cs ∧ (∀ c ∈ cs, c.lstart < c.lend) ∧
     unified cs none = [str "@@ -2 +2 @@", str "-b", str "+X", str "@@ -5 +5,2 @@", str "-e", str "+Y",
       str "+Z"] ∧
     DiffApply.applyUnified (unified cs none) exL = some exR ∧
     DiffApply.applyUnified (unified cs (some exFi)) exL = some exR := by decide
+
+/-- a pure deletion (empty RIGHT range) and a replacement: `L = [a b c d]`, `R = [a c Q]` -/
+def exR3 : List Line := [['a'], ['c'], ['Q']]
+
+set_option maxRecDepth 8000 in
+/-- non-vacuity on an empty right range: the hypotheses hold and the text `@@ -2 +2,0 @@` applies -/
+example :
+    let cs := (Model.Mdiff.new exL2 exR3).chunks
+    AllOK cs exL2 exR3 ∧ Aligned exL2 exR3 1 1 cs ∧ (∀ c ∈ cs, c.lstart < c.lend) ∧
+    (∃ c ∈ cs, c.rstart = c.rend) ∧
+    unified cs none = [str "@@ -2 +2,0 @@", str "-b", str "@@ -4 +3 @@", str "-d", str "+Q"] ∧
+    DiffApply.applyUnified (unified cs none) exL2 = some exR3 := by decide
+
+/-- **apply_unified_chunks_asWritten** (full strength, no F6 hypothesis).  Read with the convention
+the writer uses — `start,0` is the empty range AT line `start` (`applyUnifiedWith true`; every other
+rule as in `applyUnified`) — the unified rendering of every `AllOK`, `Aligned` chunk list applied to
+`L` gives `R`.  Together with `C14_F6_witness` this says that the spelling of an empty left range is
+the only thing in which `Unified`'s output departs from the published rules. -/
+theorem apply_unified_chunks_asWritten (cs : List (Chunk Line)) (L R : List Line) (fi : Option FileInfo)
+    (hok : AllOK cs L R) (hal : Aligned L R 1 1 cs) :
+    DiffApply.applyUnifiedWith true (unified cs fi) L = some R :=
+  applyUnifiedAsWritten_chunks cs L R fi hok hal
+
+set_option maxRecDepth 8000 in
+/-- non-vacuity: a pure insertion (`exL2 → exR2` has one) applies as written but not by the rules -/
+example :
+    let cs := (Model.Mdiff.new exL2 exR2).chunks
+    AllOK cs exL2 exR2 ∧ Aligned exL2 exR2 1 1 cs ∧ (∃ c ∈ cs, c.lstart = c.lend) ∧
+    unified cs none = [str "@@ -2 +2,0 @@", str "-b", str "@@ -4,0 +3 @@", str "+Q"] ∧
+    DiffApply.applyUnifiedWith true (unified cs none) exL2 = some exR2 ∧
+    DiffApply.applyUnified (unified cs none) exL2 ≠ some exR2 := by decide
 
 /-! ## corollaries for `New(L, R)` -/
 
@@ -190,11 +229,11 @@ example :
     DiffApply.applyContext (context (Model.Mdiff.new exL2 exR2).chunks none) exL2 = some exR2 := by decide
 
 /-- **apply_unified_new_partial.**  The unified rendering of `New(L, R)` applied to `L` gives `R`,
-provided no chunk has an empty left or right range, i.e. `New(L, R)` has no pure insertion and no
-pure deletion (`hne`; F6, see `apply_unified_chunks_partial` — exactly this is missing). -/
+provided no chunk has an empty LEFT range, i.e. `New(L, R)` has no pure insertion (`hne`; F6, see
+`apply_unified_chunks_partial` — exactly this is missing). -/
 theorem apply_unified_new_partial (L R : List Line) (fi : Option FileInfo)
     (hvalid : EditScript.Valid (editScript L R) L R)
-    (hne : ∀ c ∈ (Model.Mdiff.new L R).chunks, c.lstart < c.lend ∧ c.rstart < c.rend) :
+    (hne : ∀ c ∈ (Model.Mdiff.new L R).chunks, c.lstart < c.lend) :
     DiffApply.applyUnified (unified (Model.Mdiff.new L R).chunks fi) L = some R :=
   apply_unified_chunks_partial (newChunks (editScript L R)) L R fi (C13.newChunks_ok _ L R hvalid).1
     (C13.newChunks_aligned _ L R hvalid) hne
@@ -202,7 +241,7 @@ theorem apply_unified_new_partial (L R : List Line) (fi : Option FileInfo)
 set_option maxRecDepth 8000 in
 example :
     EditScript.validB (editScript exL exR) exL exR = true ∧
-    (∀ c ∈ (Model.Mdiff.new exL exR).chunks, c.lstart < c.lend ∧ c.rstart < c.rend) ∧
+    (∀ c ∈ (Model.Mdiff.new exL exR).chunks, c.lstart < c.lend) ∧
     DiffApply.applyUnified (unified (Model.Mdiff.new exL exR).chunks (some exFi)) exL = some exR := by
   decide
 
@@ -292,23 +331,78 @@ example :
     DiffApply.applyContext (context exPipe none) exL = some exR := by decide
 
 /-- **apply_unified_pipeline_partial.**  The same for the unified format, with any `FileInfo` or
-none, provided no chunk of the result has an empty left or right range (`hne`; F6, see
+none, provided no chunk of the result has an empty LEFT range (`hne`; F6, see
 `apply_unified_chunks_partial` — exactly this is missing; it holds e.g. whenever every chunk got at
 least one line of context). -/
 theorem apply_unified_pipeline_partial (L R : List Line) (n : Nat) (fi : Option FileInfo)
     (hvalid : EditScript.Valid (editScript L R) L R) :
     ∃ d1 d2, (Model.Mdiff.new L R).addContext? n = some d1 ∧ d1.unify? = .ok d2 ∧
-      ((∀ c ∈ d2.chunks, c.lstart < c.lend ∧ c.rstart < c.rend) →
+      ((∀ c ∈ d2.chunks, c.lstart < c.lend) →
         DiffApply.applyUnified (unified d2.chunks fi) L = some R) := by
   obtain ⟨d1, d2, h1, h2, hok, hal⟩ := pipeline_aligned L R n hvalid
   exact ⟨d1, d2, h1, h2, fun hne => apply_unified_chunks_partial _ L R fi hok hal hne⟩
 
 set_option maxRecDepth 8000 in
 example :
-    (∀ c ∈ exPipe, c.lstart < c.lend ∧ c.rstart < c.rend) ∧
+    (∀ c ∈ exPipe, c.lstart < c.lend) ∧
     unified exPipe none = [str "@@ -1,6 +1,7 @@", str " a", str "-b", str "+X", str " c", str " d",
       str "-e", str "+Y", str "+Z", str " f"] ∧
     DiffApply.applyUnified (unified exPipe (some exFi)) exL = some exR := by decide
+
+/-! ## round trip ∘ pipeline: the normal rendering parses back to chunks that describe the same patch -/
+
+/-- **normal_readback_chunks.**  For every chunk list that is `AllOK`, `Aligned`, made of `EditOK`
+edits with newline-free lines: `Read` applied to the bytes written by `Normal` succeeds, and the
+chunks it returns (`Props.C14.normal_roundtrip`: one per change command) are again `AllOK` for
+`L`, `R`, aligned, and `patch L` of them is `R` — what is parsed back describes the same change at
+the line ranges of the individual commands. -/
+theorem normal_readback_chunks (cs : List (Chunk Line)) (L R : List Line) (hok : AllOK cs L R)
+    (hal : Aligned L R 1 1 cs) (hed : ∀ c ∈ cs, ∀ e ∈ c.edits, EditOK e)
+    (hnl : ∀ c ∈ cs, EditsNoNl c.edits) :
+    ∃ p, read (readLines (render (normal cs))) = some p ∧ AllOK p.chunks L R ∧
+      Aligned L R 1 1 p.chunks ∧ Mdiff.patch L p.chunks = R := by
+  have h := (C14.normal_roundtrip cs (fun c hc => ⟨hed c hc, (hok c hc).l1, (hok c hc).r1⟩) hnl).1
+  obtain ⟨k1, k2⟩ := MdsVerif.Proofs.MdiffNormalRT.normalChunks_ok cs 1 1 (Nat.le_refl _) (Nat.le_refl _) hok hal
+  exact ⟨_, h, k1, k2, patch_of_aligned k1 k2⟩
+
+/-- **normal_readback_new.**  For `New(L, R)` with newline-free lines: the normal rendering parses
+back (`Read`) to chunks that are `AllOK` for `L`, `R` and patch `L` into `R` (`hvalid`, `hcanon`: C11). -/
+theorem normal_readback_new (L R : List Line) (hvalid : EditScript.Valid (editScript L R) L R)
+    (hcanon : EditScript.Canonical (editScript L R)) (hL : ∀ l ∈ L, NoNl l) (hR : ∀ l ∈ R, NoNl l) :
+    ∃ p, read (readLines (render (normal (Model.Mdiff.new L R).chunks))) = some p ∧
+      AllOK p.chunks L R ∧ Mdiff.patch L p.chunks = R := by
+  have r := C13.newChunks_ok (editScript L R) L R hvalid
+  have g := newChunks_good L R hvalid hcanon
+  obtain ⟨p, h1, h2, _, h4⟩ := normal_readback_chunks (newChunks (editScript L R)) L R r.1
+    (C13.newChunks_aligned _ L R hvalid) (fun c hc => (g c hc).1)
+    (fun c hc => MdsVerif.Proofs.MdiffNormalRT.editsNoNl_of_ok (r.1 c hc) (g c hc).1 (r.2.2.2.2.1 c hc) hL hR)
+  exact ⟨p, h1, h2, h4⟩
+
+/-- **normal_readback_pipeline.**  The same for `New(L, R).AddContext(n).Unify()`, every `n`,
+provided the lines held by the unified chunks are newline-free (`hnl`; they are lines of `L` and
+`R` — context lines are copied from `Left` — but that is not proved here: `EditsNoNl` also speaks
+about the unused `Y` field of Emit edits). -/
+theorem normal_readback_pipeline (L R : List Line) (n : Nat)
+    (hvalid : EditScript.Valid (editScript L R) L R) (hcanon : EditScript.Canonical (editScript L R)) :
+    ∃ d1 d2, (Model.Mdiff.new L R).addContext? n = some d1 ∧ d1.unify? = .ok d2 ∧
+      ((∀ c ∈ d2.chunks, EditsNoNl c.edits) →
+        ∃ p, read (readLines (render (normal d2.chunks))) = some p ∧
+          AllOK p.chunks L R ∧ Mdiff.patch L p.chunks = R) := by
+  obtain ⟨d1, d2, h1, h2, hok, hal, hed, _⟩ := pipeline_chunks L R n hvalid hcanon
+  refine ⟨d1, d2, h1, h2, fun hnl => ?_⟩
+  obtain ⟨p, k1, k2, _, k4⟩ := normal_readback_chunks d2.chunks L R hok hal hed hnl
+  exact ⟨p, k1, k2, k4⟩
+
+set_option maxRecDepth 8000 in
+/-- non-vacuity: the merged chunk of the running example (`n = 1`: five edits, three of them Emits)
+is newline-free, and `Read(Normal(·))` returns the two change commands as two chunks that patch
+`exL` into `exR` -/
+example :
+    (exPipe.all fun c => c.edits.all fun e => (e.X ++ e.Y).all fun l => !l.contains '\n') = true ∧
+    (read (readLines (render (normal exPipe)))).map (fun p => (p.chunks.map fun c =>
+        (c.lstart, c.lend, c.rstart, c.rend), decide (AllOK p.chunks exL exR),
+        decide (Mdiff.patch exL p.chunks = exR)))
+      = some ([(2, 3, 2, 3), (5, 6, 5, 7)], true, true) := by decide
 
 /-! ## full-strength statements that are NOT theorems of the code as it is (F6)
 
@@ -326,7 +420,8 @@ context: `Unified` writes `@@ -3,0 +3 @@`, the published rules want `@@ -2,0 +3 
 provable (same proof, `parseUnifiedHeader_chunk` and `applyUnifiedLoop_chunk` extended by the case
 of a count 0) once `uspan` writes `start-1` for an empty range, i.e. for
 `Gen.MdiffFmt.uspanFst s e = if e = s then s - 1 else s`.  The `_partial` versions above carry the
-hypothesis "no chunk has an empty left or right range" instead; nothing else is weakened.
+hypothesis "no chunk has an empty LEFT range" instead; nothing else is weakened
+(`apply_unified_chunks_asWritten`: with the writer's own reading of `start,0` no hypothesis is needed).
 The normal and context statements are proved at full strength.
 -/
 
